@@ -1,0 +1,81 @@
+// Copyright 2026 The Jujutsu Authors
+//
+// Licensed under the Apache License, Version 2.0 (the "License");
+// you may not use this file except in compliance with the License.
+// You may obtain a copy of the License at
+//
+// https://www.apache.org/licenses/LICENSE-2.0
+//
+// Unless required by applicable law or agreed to in writing, software
+// distributed under the License is distributed on an "AS IS" BASIS,
+// WITHOUT WARRANTIES OR CONDITIONS OF ANY KIND, either express or implied.
+// See the License for the specific language governing permissions and
+// limitations under the License.
+
+//! Hooks for deterministic simulation. Compiled only with
+//! `--cfg jj_vcs_jj_verif`; without an installed harness every hook is a
+//! no-op and the surrounding code behaves exactly as shipped.
+
+#![expect(missing_docs)]
+
+use std::fs::Metadata;
+use std::io;
+use std::path::Path;
+use std::sync::Arc;
+use std::sync::RwLock;
+
+/// Callbacks a simulation harness installs for the current process.
+pub trait VerifHooks: Send + Sync {
+    /// Called at the start of a file-system primitive. May block the calling
+    /// thread (scheduling decision) or return an injected I/O error.
+    fn point(&self, _kind: &'static str, _path: &Path) -> io::Result<()> {
+        Ok(())
+    }
+
+    /// Lock request. `None` means "not handled, use the real flock".
+    /// `Some(true)` means granted, `Some(false)` means the lock is held by
+    /// someone else (only returned to non-blocking requests).
+    fn lock(&self, _path: &Path, _blocking: bool) -> Option<bool> {
+        None
+    }
+
+    /// A lock on `path` was dropped.
+    fn unlock(&self, _path: &Path) {}
+
+    /// Translates a file's modification time (milliseconds since epoch).
+    fn mtime(&self, _metadata: &Metadata) -> Option<i64> {
+        None
+    }
+}
+
+static HOOKS: RwLock<Option<Arc<dyn VerifHooks>>> = RwLock::new(None);
+
+/// Installs (or removes) the harness for this process.
+pub fn install(hooks: Option<Arc<dyn VerifHooks>>) {
+    *HOOKS.write().unwrap() = hooks;
+}
+
+fn current() -> Option<Arc<dyn VerifHooks>> {
+    HOOKS.read().unwrap().clone()
+}
+
+pub fn point(kind: &'static str, path: &Path) -> io::Result<()> {
+    match current() {
+        Some(hooks) => hooks.point(kind, path),
+        None => Ok(()),
+    }
+}
+
+pub fn lock(path: &Path, blocking: bool) -> Option<bool> {
+    current().and_then(|hooks| hooks.lock(path, blocking))
+}
+
+pub fn unlock(path: &Path) {
+    if let Some(hooks) = current() {
+        hooks.unlock(path);
+    }
+}
+
+pub fn mtime(metadata: &Metadata) -> Option<i64> {
+    current().and_then(|hooks| hooks.mtime(metadata))
+}
